@@ -77,9 +77,10 @@ func tagStr() *rapid.Generator[pbt.S] {
 }
 
 func gen(t *rapid.T) Case {
-	c := Case{Binary: rapid.Bool().Draw(t, "binary"), Dests: rapid.IntRange(1, 3).Draw(t, "dests"), Queue: rapid.SampledFrom([]int{1, 2, 8, 4096}).Draw(t, "queue")}
+	c := Case{Binary: rapid.Bool().Draw(t, "binary"), Dests: rapid.IntRange(1, 3).Draw(t, "dests"), Queue: rapid.SampledFrom([]int{1, 2, 8, 4096, 0}).Draw(t, "queue")}
 	c.Common = pbt.MapOf(pbt.PlainString(), pbt.AnyString(), 3).Draw(t, "common")
-	c.MaxPacket = int32(rapid.SampledFrom([]int{1440, 1440, 4000, 32768}).Draw(t, "maxPacket"))
+	// 0: the reporter's default packet size; 65000: the most the UDP transport takes
+	c.MaxPacket = int32(rapid.SampledFrom([]int{1440, 1440, 4000, 32768, 0, 0, 65000}).Draw(t, "maxPacket"))
 	if rapid.IntRange(0, 4).Draw(t, "customNames") == 0 {
 		c.IDName, c.BucketName = "bid", "le"
 	}
@@ -117,7 +118,7 @@ func gen(t *rapid.T) Case {
 				op.NB = rapid.IntRange(0, 6).Draw(t, "nb")
 				op.B = rapid.IntRange(0, 6).Draw(t, "b")
 				op.Rep = rapid.SampledFrom([]int{0, 0, 1, 3, 20}).Draw(t, "rep")
-				if c.MaxPacket <= 4000 && rapid.IntRange(0, 15).Draw(t, "pad?") == 0 {
+				if c.MaxPacket > 0 && c.MaxPacket <= 4000 && rapid.IntRange(0, 15).Draw(t, "pad?") == 0 {
 					op.Pad = int(c.MaxPacket) + rapid.IntRange(0, 600).Draw(t, "pad")
 					op.Rep = rapid.IntRange(0, 2).Draw(t, "padrep")
 				}
@@ -132,7 +133,7 @@ func gen(t *rapid.T) Case {
 	if rapid.IntRange(0, 3).Draw(t, "dead?") == 0 {
 		c.Dead = rapid.IntRange(1, 4).Draw(t, "dead")
 	}
-	if np >= 2 && rapid.IntRange(0, 5).Draw(t, "shared") == 0 {
+	if np >= 2 && (rapid.IntRange(0, 5).Draw(t, "shared") == 0 || (c.MaxPacket == 0 || c.MaxPacket == 65000) && rapid.Bool().Draw(t, "sharedBig")) {
 		c.SharedBurst = rapid.SampledFrom([]int{50, 500, 3000}).Draw(t, "sharedBurst")
 	}
 	return c
